@@ -724,6 +724,42 @@ func c30Check(rt *rapid.T, rec *vstat.Rec, env *c30Env, c c30Case) {
 		return strings.HasPrefix(sig, "C30/blob-as-text{") && rec.KnownHit(sig, c30KnownWhat)
 	}
 
+	// 0. binding oracle: the same rows through the raw driver (built first: it also tells whether the case is inside the domain)
+	odb, err := vsql.OpenMem()
+	if err != nil {
+		rt.Skipf("infrastructure: %v", err)
+	}
+	defer odb.Close()
+	if _, err := odb.Exec(c.createSQL()); err != nil {
+		rt.Skipf("infrastructure: oracle create: %v", err)
+	}
+	for r, row := range c.Rows {
+		ph := make([]string, len(row))
+		args := []any{int64(r + 1)}
+		for i, v := range row {
+			ph[i] = "?"
+			args = append(args, v.arg())
+		}
+		if _, err := odb.Exec(fmt.Sprintf("INSERT INTO %s VALUES(?,%s)", c.table(), strings.Join(ph, ",")), args...); err != nil {
+			rt.Skipf("infrastructure: oracle insert: %v", err)
+		}
+	}
+	wantDump, err := vsql.DumpTable(odb, c.table())
+	if err != nil {
+		rt.Skipf("infrastructure: %v", err)
+	}
+	// column affinity can turn a long numeric-looking text into an infinite
+	// REAL; JSON cannot carry ±Inf/NaN, which the property excludes
+	if ocells, err := c30RawQuery(odb, "SELECT * FROM "+c.table()); err == nil {
+		for _, row := range ocells {
+			for _, v := range row {
+				if f, ok := v.(float64); ok && (math.IsInf(f, 0) || math.IsNaN(f)) {
+					rec.Label("excluded:infinite-real-by-affinity")
+					return
+				}
+			}
+		}
+	}
 	// 1. store through the API
 	execPath := "/db/execute?transaction"
 	if c.ExecAssoc {
@@ -760,30 +796,6 @@ func c30Check(rt *rapid.T, rec *vstat.Rec, env *c30Env, c c30Case) {
 		}
 	}
 
-	// 2. binding oracle: the same rows through the raw driver
-	odb, err := vsql.OpenMem()
-	if err != nil {
-		rt.Skipf("infrastructure: %v", err)
-	}
-	defer odb.Close()
-	if _, err := odb.Exec(c.createSQL()); err != nil {
-		rt.Skipf("infrastructure: oracle create: %v", err)
-	}
-	for r, row := range c.Rows {
-		ph := make([]string, len(row))
-		args := []any{int64(r + 1)}
-		for i, v := range row {
-			ph[i] = "?"
-			args = append(args, v.arg())
-		}
-		if _, err := odb.Exec(fmt.Sprintf("INSERT INTO %s VALUES(?,%s)", c.table(), strings.Join(ph, ",")), args...); err != nil {
-			rt.Skipf("infrastructure: oracle insert: %v", err)
-		}
-	}
-	wantDump, err := vsql.DumpTable(odb, c.table())
-	if err != nil {
-		rt.Skipf("infrastructure: %v", err)
-	}
 	rdb, err := vsql.Open(env.dbPath())
 	if err != nil {
 		rt.Skipf("infrastructure: %v", err)
@@ -851,9 +863,14 @@ func c30Check(rt *rapid.T, rec *vstat.Rec, env *c30Env, c c30Case) {
 	if err != nil {
 		rt.Skipf("infrastructure: raw select: %v", err)
 	}
-	for _, form := range []struct {
-		assoc, arr bool
-	}{{false, false}, {true, false}, {false, true}, {true, true}} {
+	// two complementary forms per case (every flag is seen on and off); which
+	// pair is derived from the case so that all four combinations are covered
+	type c30Form struct{ assoc, arr bool }
+	forms := []c30Form{{false, false}, {true, true}}
+	if (len(c.ColTypes)+len(c.Rows))%2 == 1 {
+		forms = []c30Form{{true, false}, {false, true}}
+	}
+	for _, form := range forms {
 		path := "/db/" + c.Endpoint + "?x"
 		if form.assoc {
 			path += "&associative"
@@ -922,7 +939,7 @@ func c30Check(rt *rapid.T, rec *vstat.Rec, env *c30Env, c c30Case) {
 
 func TestVerif_C30_HTTP(t *testing.T) {
 	rec := vstat.New(t, "C30", "http",
-		"rapid: tables of 1-4 columns declared untyped/INTEGER/REAL/TEXT/BLOB, 1-3 rows inserted through POST /db/execute with positional or named JSON parameters (int64 incl. extremes and beyond 2^53, floats in g/e/f notation incl. max/denormal, booleans, null, text incl. non-ASCII, control characters, \\u-escaped, numeric- and hex-looking, X'..' hex blob literals, byte arrays incl. empty, ASCII-looking and invalid-UTF-8 blobs); stored table compared with the raw driver's; columns and +column expressions read back through /db/query or /db/request in array/associative x base64/blob_array forms and 1-4 query parameters echoed by SELECT ?; one real single-node store + http.Service shared by all cases, table recreated per case; non-trivial = at least two different value kinds stored; distinct by request bodies")
+		"rapid: tables of 1-4 columns declared untyped/INTEGER/REAL/TEXT/BLOB, 1-3 rows inserted through POST /db/execute with positional or named JSON parameters (int64 incl. extremes and beyond 2^53, floats in g/e/f notation incl. max/denormal, booleans, null, text incl. non-ASCII, control characters, \\u-escaped, numeric- and hex-looking, X'..' hex blob literals, byte arrays incl. empty, ASCII-looking and invalid-UTF-8 blobs); stored table compared with the raw driver's; columns and +column expressions read back through /db/query or /db/request in array/associative x base64/blob_array forms (two complementary forms per case), INSERT ... RETURNING answers of /db/execute, optional pretty printing, and 1-4 query parameters echoed by SELECT ?; one real single-node store + http.Service shared by all cases, table recreated per case; non-trivial = at least two different value kinds stored; distinct by request bodies")
 	env, err := c30NewEnv()
 	if err != nil {
 		t.Skipf("infrastructure: %v", err)
